@@ -1,6 +1,7 @@
 package main
 
 import (
+	"strings"
 	"fmt"
 	"go/token"
 	"go/types"
@@ -327,6 +328,9 @@ func (ex *Exec) prepareCall(fr *Frame, pos token.Pos, call *ssa.CallCommon) (fn 
 			if m == nil {
 				ex.unsupported("native object %s has no method %s", nm.kind, call.Method.Name())
 			}
+			// a modelled stateful object (hasher, cipher, ...) is memory the caller
+			// mutates: unsynchronised use from two goroutines is a data race
+			ex.noteObjAccess(fr, nm, strings.HasPrefix(nm.kind, "hash."))
 			fn = m
 			for _, arg := range call.Args {
 				args = append(args, fr.get(arg))
